@@ -9,6 +9,7 @@
 //!          (`_i` = `inspect: true`)
 //!   OPT    plain | some | none   (`#[emit::optional]` applied to `Some(&v)` / `None::<&T>`)
 //!   PATH   direct | erased | event | owned | shared | owned_thread | ctxt_push | ctxt_root | ctxt_nested | ctxt_thread
+//!          | emit (OPT = plain only: the value is captured by `emit::emit!` and observed by the emitter) | emit_ctxt
 //! The runner captures the value through the real macro, reads the property back along PATH and prints the
 //! observations (typed pulls, Display, Debug, serde_json, sval_json, error chain, downcast) the property constrains.
 //! Rust-side oracle: the same observations of the ORIGINAL value taken directly; FAIL when an observation the
@@ -107,6 +108,8 @@ fn show_str(o: &Option<String>, missing: &str) -> String {
 struct Shown {
     pulls: bool,
     fmt: bool,
+    /// the Debug text of an error value (the error's own Debug, `OwnedError {…}` once buffered) is not constrained
+    dbg: bool,
 }
 
 fn render(o: &Option<Obs>, sh: &Shown) -> String {
@@ -133,7 +136,7 @@ fn render(o: &Option<Obs>, sh: &Shown) -> String {
     parts.push(format!("null={}", o.null));
     if sh.fmt {
         parts.push(format!("disp={}", Sexp::str(&o.disp)));
-        if o.chain.is_none() {
+        if sh.dbg {
             parts.push(format!("dbg={}", Sexp::str(&o.dbg)));
         }
     }
@@ -160,6 +163,10 @@ enum Path {
     CtxtRoot,
     CtxtNested,
     CtxtThread,
+    /// captured by `emit::emit!` itself and observed by the runtime's emitter (the event a sink receives)
+    Emit,
+    /// pushed into the runtime's ambient context with `Frame::push`, then seen by the emitter of `emit::emit!`
+    EmitCtxt,
 }
 
 const PATHS: &[(&str, Path)] = &[
@@ -173,11 +180,56 @@ const PATHS: &[(&str, Path)] = &[
     ("ctxt_root", Path::CtxtRoot),
     ("ctxt_nested", Path::CtxtNested),
     ("ctxt_thread", Path::CtxtThread),
+    ("emit", Path::Emit),
+    ("emit_ctxt", Path::EmitCtxt),
 ];
+
+/// The sink: records what it can observe under `key` on every event it is given (through the erased event, like
+/// the real emitters).
+struct Recorder<'a> {
+    key: &'static str,
+    seen: &'a std::cell::RefCell<Vec<Option<Obs>>>,
+}
+impl<'a> emit::Emitter for Recorder<'a> {
+    fn emit<E: emit::event::ToEvent>(&self, evt: E) {
+        let evt = evt.to_event();
+        let erased = evt.erase();
+        self.seen.borrow_mut().push(observe(erased.props(), self.key));
+    }
+    fn blocking_flush(&self, _: std::time::Duration) -> bool {
+        true
+    }
+}
+type Rt<'a> = emit::runtime::Runtime<Recorder<'a>, emit::Empty, emit::platform::thread_local_ctxt::ThreadLocalCtxt, emit::Empty, emit::Empty>;
+
+/// Run `f` with a real runtime (recording emitter, real thread-local ambient context) and return what the emitter
+/// observed under `key` on the one event it must receive.
+fn with_rt(key: &'static str, f: impl FnOnce(&Rt)) -> Option<Obs> {
+    let seen = std::cell::RefCell::new(Vec::new());
+    {
+        let rt: Rt = emit::runtime::Runtime::build(
+            Recorder { key, seen: &seen },
+            emit::Empty,
+            emit::platform::thread_local_ctxt::ThreadLocalCtxt::new(),
+            emit::Empty,
+            emit::Empty,
+        );
+        f(&rt);
+    }
+    let mut seen = seen.into_inner();
+    assert_eq!(seen.len(), 1, "the emitter must see exactly one event");
+    seen.pop().unwrap()
+}
 
 fn read<P: Props>(props: &P, key: &'static str, path: Path) -> Option<Obs> {
     use emit::platform::thread_local_ctxt::ThreadLocalCtxt;
     match path {
+        Path::Emit => unreachable!("captured by the emit! call site"),
+        Path::EmitCtxt => with_rt(key, |rt| {
+            emit::Frame::push(rt.ctxt(), props).call(|| {
+                emit::emit!(rt: rt, "c19 ambient");
+            })
+        }),
         Path::Direct => observe(props, key),
         Path::Erased => {
             let e: &dyn ErasedProps = props;
@@ -259,7 +311,8 @@ enum Prim {
     /// bits of the value as an f64 (`f32` widened with `as`)
     F64(u64),
     Str(String),
-    /// `Option<primitive>::None`, `()`
+    Char(char),
+    /// `Option<primitive>::None`
     Null,
 }
 
@@ -273,15 +326,15 @@ struct Orig {
     prim: Prim,
     /// what `try_capture` / `inspect: true` sees (primitive, `String`, or an `Option` of those)
     inspectable: Prim,
-    /// the well-known-key hooks map `Option::None` to an absent property without `#[emit::optional]`
-    wk_none: bool,
+    /// the value is `Option::None` (the well-known-key hooks map it to an absent property without `#[emit::optional]`)
+    is_none: bool,
     /// a plain primitive / string (typed pulls are part of the output also under sval/serde capture)
     leaf: bool,
 }
 
 impl Orig {
     fn new() -> Orig {
-        Orig { disp: None, dbg: None, sj: None, vj: None, chain: None, prim: Prim::No, inspectable: Prim::No, wk_none: false, leaf: false }
+        Orig { disp: None, dbg: None, sj: None, vj: None, chain: None, prim: Prim::No, inspectable: Prim::No, is_none: false, leaf: false }
     }
 }
 
@@ -602,7 +655,7 @@ impl Build for char {
         Sexp::tagged("char", vec![Sexp::num(c as u32), Sexp::str(&format!("{:?}", c))])
     }
     fn orig(&self) -> Orig {
-        Orig { leaf: true, ..all_display_debug_ser(self) }
+        Orig { inspectable: Prim::Char(*self), leaf: true, ..all_display_debug_ser(self) }
     }
 }
 
@@ -693,6 +746,487 @@ impl Build for BorrowedStr {
     }
 }
 
+// ---- structured values: std containers and serde+sval-derived structs / enums (generic, instantiated below)
+
+/// A type with `Debug + Serialize + sval::Value` (everything but `isize`/`usize`/the borrowed str wrapper).
+trait SBuild: Build + fmt::Debug + serde::Serialize + sval::Value {}
+macro_rules! sbuild { ($($t:ty),*) => { $(impl SBuild for $t {})* }; }
+sbuild!(bool, i8, i16, i32, i64, i128, u8, u16, u32, u64, u128, f32, f64, char, String);
+
+fn gen_len(rng: &mut Rng) -> usize {
+    match rng.below(6) {
+        0 => 0,
+        1 | 2 => 1,
+        3 | 4 => 2,
+        _ => 3,
+    }
+}
+
+fn prim_of_option(inner: Option<Orig>) -> Prim {
+    match inner {
+        None => Prim::Null,
+        Some(o) => o.inspectable,
+    }
+}
+
+impl<T: SBuild> SBuild for Option<T> {}
+impl<T: SBuild> Build for Option<T> {
+    fn build(s: &Sexp) -> Option<Self> {
+        let (t, a) = s.as_tagged()?;
+        match (t, a.len()) {
+            ("none", 1) => {
+                if a[0].as_atom()? != if T::PRIM { "prim" } else { "other" } {
+                    return None;
+                }
+                Some(None)
+            }
+            ("some", 1) => Some(Some(T::build(&a[0])?)),
+            _ => None,
+        }
+    }
+    fn gen(rng: &mut Rng, d: usize) -> Sexp {
+        if rng.chance(1, 3) {
+            Sexp::tagged("none", vec![Sexp::atom(if T::PRIM { "prim" } else { "other" })])
+        } else {
+            Sexp::tagged("some", vec![T::gen(rng, d)])
+        }
+    }
+    fn orig(&self) -> Orig {
+        let inspectable = if T::PRIM { prim_of_option(self.as_ref().map(|v| v.orig())) } else { Prim::No };
+        Orig { inspectable, is_none: self.is_none(), ..debug_ser(self) }
+    }
+}
+
+impl<T: SBuild> SBuild for Vec<T> {}
+impl<T: SBuild> Build for Vec<T> {
+    fn build(s: &Sexp) -> Option<Self> {
+        let (t, a) = s.as_tagged()?;
+        if t != "seq" {
+            return None;
+        }
+        a.iter().map(T::build).collect()
+    }
+    fn gen(rng: &mut Rng, d: usize) -> Sexp {
+        let n = gen_len(rng);
+        Sexp::tagged("seq", (0..n).map(|_| T::gen(rng, d)).collect())
+    }
+    fn orig(&self) -> Orig {
+        debug_ser(self)
+    }
+}
+
+/// map keys: strings and integers
+trait KeyBuild: SBuild + Ord {}
+impl KeyBuild for String {}
+impl KeyBuild for i32 {}
+impl KeyBuild for u64 {}
+
+impl<K: KeyBuild, T: SBuild> SBuild for BTreeMap<K, T> {}
+impl<K: KeyBuild, T: SBuild> Build for BTreeMap<K, T> {
+    fn build(s: &Sexp) -> Option<Self> {
+        let (t, a) = s.as_tagged()?;
+        if t != "map" {
+            return None;
+        }
+        let mut m = BTreeMap::new();
+        let mut last: Option<&K> = None;
+        let mut items = Vec::new();
+        for kv in a {
+            let l = kv.as_list()?;
+            if l.len() != 2 {
+                return None;
+            }
+            items.push((K::build(&l[0])?, T::build(&l[1])?));
+        }
+        // the case must list the entries in the map's own order, without duplicates
+        for (k, _) in &items {
+            if let Some(prev) = last {
+                if prev >= k {
+                    return None;
+                }
+            }
+            last = Some(k);
+        }
+        for (k, v) in items {
+            m.insert(k, v);
+        }
+        Some(m)
+    }
+    fn gen(rng: &mut Rng, d: usize) -> Sexp {
+        let n = gen_len(rng);
+        let mut m: BTreeMap<K, (Sexp, Sexp)> = BTreeMap::new();
+        for _ in 0..n {
+            let ks = K::gen(rng, d);
+            if let Some(k) = K::build(&ks) {
+                m.insert(k, (ks, T::gen(rng, d)));
+            }
+        }
+        Sexp::tagged("map", m.into_values().map(|(k, v)| Sexp::list(vec![k, v])).collect())
+    }
+    fn orig(&self) -> Orig {
+        debug_ser(self)
+    }
+}
+
+impl SBuild for () {}
+impl Build for () {
+    fn build(s: &Sexp) -> Option<Self> {
+        if s.as_atom()? == "unit" {
+            Some(())
+        } else {
+            None
+        }
+    }
+    fn gen(_: &mut Rng, _: usize) -> Sexp {
+        Sexp::atom("unit")
+    }
+    fn orig(&self) -> Orig {
+        debug_ser(self)
+    }
+}
+
+impl<A: SBuild, B: SBuild> SBuild for (A, B) {}
+impl<A: SBuild, B: SBuild> Build for (A, B) {
+    fn build(s: &Sexp) -> Option<Self> {
+        let a = tagged(s, "tuple", 2)?;
+        Some((A::build(&a[0])?, B::build(&a[1])?))
+    }
+    fn gen(rng: &mut Rng, d: usize) -> Sexp {
+        Sexp::tagged("tuple", vec![A::gen(rng, d), B::gen(rng, d)])
+    }
+    fn orig(&self) -> Orig {
+        debug_ser(self)
+    }
+}
+
+#[derive(serde::Serialize, sval_derive::Value, Debug, Clone)]
+struct Rec2<A, B> {
+    a: A,
+    b: B,
+}
+#[derive(serde::Serialize, sval_derive::Value, Debug, Clone)]
+struct Newt<A>(A);
+#[derive(serde::Serialize, sval_derive::Value, Debug, Clone)]
+struct Tup2<A, B>(A, B);
+#[derive(serde::Serialize, sval_derive::Value, Debug, Clone)]
+struct UnitS;
+#[derive(serde::Serialize, sval_derive::Value, Debug, Clone)]
+enum En<A, B> {
+    Unit,
+    New(A),
+    Tup(A, B),
+    Rec { x: A, y: B },
+}
+
+fn field<T: Build>(s: &Sexp, name: &str) -> Option<T> {
+    let l = s.as_list()?;
+    if l.len() != 2 || l[0].as_string()? != name {
+        return None;
+    }
+    T::build(&l[1])
+}
+fn fld(name: &str, v: Sexp) -> Sexp {
+    Sexp::list(vec![Sexp::str(name), v])
+}
+fn named<'a>(s: &'a Sexp, tag: &str, name: &str, n: usize) -> Option<&'a [Sexp]> {
+    let a = tagged(s, tag, n + 1)?;
+    if a[0].as_string()? != name {
+        return None;
+    }
+    Some(&a[1..])
+}
+
+impl<A: SBuild, B: SBuild> SBuild for Rec2<A, B> {}
+impl<A: SBuild, B: SBuild> Build for Rec2<A, B> {
+    fn build(s: &Sexp) -> Option<Self> {
+        let a = named(s, "rec", "Rec2", 2)?;
+        Some(Rec2 { a: field(&a[0], "a")?, b: field(&a[1], "b")? })
+    }
+    fn gen(rng: &mut Rng, d: usize) -> Sexp {
+        Sexp::tagged("rec", vec![Sexp::str("Rec2"), fld("a", A::gen(rng, d)), fld("b", B::gen(rng, d))])
+    }
+    fn orig(&self) -> Orig {
+        debug_ser(self)
+    }
+}
+impl<A: SBuild> SBuild for Newt<A> {}
+impl<A: SBuild> Build for Newt<A> {
+    fn build(s: &Sexp) -> Option<Self> {
+        Some(Newt(A::build(&named(s, "tstruct", "Newt", 1)?[0])?))
+    }
+    fn gen(rng: &mut Rng, d: usize) -> Sexp {
+        Sexp::tagged("tstruct", vec![Sexp::str("Newt"), A::gen(rng, d)])
+    }
+    fn orig(&self) -> Orig {
+        debug_ser(self)
+    }
+}
+impl<A: SBuild, B: SBuild> SBuild for Tup2<A, B> {}
+impl<A: SBuild, B: SBuild> Build for Tup2<A, B> {
+    fn build(s: &Sexp) -> Option<Self> {
+        let a = named(s, "tstruct", "Tup2", 2)?;
+        Some(Tup2(A::build(&a[0])?, B::build(&a[1])?))
+    }
+    fn gen(rng: &mut Rng, d: usize) -> Sexp {
+        Sexp::tagged("tstruct", vec![Sexp::str("Tup2"), A::gen(rng, d), B::gen(rng, d)])
+    }
+    fn orig(&self) -> Orig {
+        debug_ser(self)
+    }
+}
+impl SBuild for UnitS {}
+impl Build for UnitS {
+    fn build(s: &Sexp) -> Option<Self> {
+        named(s, "ustruct", "UnitS", 0).map(|_| UnitS)
+    }
+    fn gen(_: &mut Rng, _: usize) -> Sexp {
+        Sexp::tagged("ustruct", vec![Sexp::str("UnitS")])
+    }
+    fn orig(&self) -> Orig {
+        debug_ser(self)
+    }
+}
+impl<A: SBuild, B: SBuild> SBuild for En<A, B> {}
+impl<A: SBuild, B: SBuild> Build for En<A, B> {
+    fn build(s: &Sexp) -> Option<Self> {
+        let (t, _) = s.as_tagged()?;
+        match t {
+            "uvar" => named(s, "uvar", "Unit", 0).map(|_| En::Unit),
+            "nvar" => Some(En::New(A::build(&named(s, "nvar", "New", 1)?[0])?)),
+            "tvar" => {
+                let a = named(s, "tvar", "Tup", 2)?;
+                Some(En::Tup(A::build(&a[0])?, B::build(&a[1])?))
+            }
+            "svar" => {
+                let a = named(s, "svar", "Rec", 2)?;
+                Some(En::Rec { x: field(&a[0], "x")?, y: field(&a[1], "y")? })
+            }
+            _ => None,
+        }
+    }
+    fn gen(rng: &mut Rng, d: usize) -> Sexp {
+        match rng.below(4) {
+            0 => Sexp::tagged("uvar", vec![Sexp::str("Unit")]),
+            1 => Sexp::tagged("nvar", vec![Sexp::str("New"), A::gen(rng, d)]),
+            2 => Sexp::tagged("tvar", vec![Sexp::str("Tup"), A::gen(rng, d), B::gen(rng, d)]),
+            _ => Sexp::tagged("svar", vec![Sexp::str("Rec"), fld("x", A::gen(rng, d)), fld("y", B::gen(rng, d))]),
+        }
+    }
+    fn orig(&self) -> Orig {
+        debug_ser(self)
+    }
+}
+
+// ---- errors with a source chain, Display-only / Debug-only types
+
+#[derive(Debug)]
+struct ChainErr {
+    msg: String,
+    source: Option<Box<ChainErr>>,
+}
+impl fmt::Display for ChainErr {
+    fn fmt(&self, f: &mut fmt::Formatter) -> fmt::Result {
+        f.write_str(&self.msg)
+    }
+}
+impl std::error::Error for ChainErr {
+    fn source(&self) -> Option<&(dyn std::error::Error + 'static)> {
+        self.source.as_ref().map(|e| &**e as &(dyn std::error::Error + 'static))
+    }
+}
+impl ChainErr {
+    fn msgs(&self) -> Vec<String> {
+        let mut out = vec![self.msg.clone()];
+        let mut cur = &self.source;
+        while let Some(e) = cur {
+            out.push(e.msg.clone());
+            cur = &e.source;
+        }
+        out
+    }
+    fn of(msgs: &[String]) -> Option<ChainErr> {
+        let (first, rest) = msgs.split_first()?;
+        Some(ChainErr { msg: first.clone(), source: ChainErr::of(rest).map(Box::new) })
+    }
+    fn sexp(&self) -> Sexp {
+        let mut a = vec![Sexp::str(&format!("{:?}", self))];
+        a.extend(self.msgs().iter().map(|m| Sexp::str(m)));
+        Sexp::tagged("err", a)
+    }
+}
+impl Build for ChainErr {
+    fn build(s: &Sexp) -> Option<Self> {
+        let (t, a) = s.as_tagged()?;
+        if t != "err" || a.len() < 2 {
+            return None;
+        }
+        let msgs: Option<Vec<String>> = a[1..].iter().map(|m| m.as_string()).collect();
+        let e = ChainErr::of(&msgs?)?;
+        if &e.sexp() != s {
+            return None;
+        }
+        Some(e)
+    }
+    fn gen(rng: &mut Rng, _: usize) -> Sexp {
+        let n = 1 + rng.below(4) as usize;
+        let msgs: Vec<String> = (0..n).map(|_| gen_string(rng)).collect();
+        ChainErr::of(&msgs).unwrap().sexp()
+    }
+    fn orig(&self) -> Orig {
+        Orig { disp: Some(self.to_string()), dbg: Some(format!("{:?}", self)), chain: Some(self.msgs()), ..Orig::new() }
+    }
+}
+
+struct DispOnly(String);
+impl fmt::Display for DispOnly {
+    fn fmt(&self, f: &mut fmt::Formatter) -> fmt::Result {
+        f.write_str(&self.0)
+    }
+}
+struct DbgOnly(String);
+impl fmt::Debug for DbgOnly {
+    fn fmt(&self, f: &mut fmt::Formatter) -> fmt::Result {
+        f.write_str(&self.0)
+    }
+}
+struct DispDbg(String, String);
+impl fmt::Display for DispDbg {
+    fn fmt(&self, f: &mut fmt::Formatter) -> fmt::Result {
+        f.write_str(&self.0)
+    }
+}
+impl fmt::Debug for DispDbg {
+    fn fmt(&self, f: &mut fmt::Formatter) -> fmt::Result {
+        f.write_str(&self.1)
+    }
+}
+fn opt_text(s: &Sexp) -> Option<Option<String>> {
+    if s.as_atom()? == "none" {
+        Some(None)
+    } else {
+        s.as_string().map(Some)
+    }
+}
+impl Build for DispOnly {
+    fn build(s: &Sexp) -> Option<Self> {
+        let a = tagged(s, "opaque", 2)?;
+        match (opt_text(&a[0])?, opt_text(&a[1])?) {
+            (Some(d), None) => Some(DispOnly(d)),
+            _ => None,
+        }
+    }
+    fn gen(rng: &mut Rng, _: usize) -> Sexp {
+        Sexp::tagged("opaque", vec![Sexp::str(&gen_string(rng)), Sexp::atom("none")])
+    }
+    fn orig(&self) -> Orig {
+        Orig { disp: Some(self.0.clone()), ..Orig::new() }
+    }
+}
+impl Build for DbgOnly {
+    fn build(s: &Sexp) -> Option<Self> {
+        let a = tagged(s, "opaque", 2)?;
+        match (opt_text(&a[0])?, opt_text(&a[1])?) {
+            (None, Some(g)) => Some(DbgOnly(g)),
+            _ => None,
+        }
+    }
+    fn gen(rng: &mut Rng, _: usize) -> Sexp {
+        Sexp::tagged("opaque", vec![Sexp::atom("none"), Sexp::str(&gen_string(rng))])
+    }
+    fn orig(&self) -> Orig {
+        Orig { dbg: Some(self.0.clone()), ..Orig::new() }
+    }
+}
+impl Build for DispDbg {
+    fn build(s: &Sexp) -> Option<Self> {
+        let a = tagged(s, "opaque", 2)?;
+        match (opt_text(&a[0])?, opt_text(&a[1])?) {
+            (Some(d), Some(g)) => Some(DispDbg(d, g)),
+            _ => None,
+        }
+    }
+    fn gen(rng: &mut Rng, _: usize) -> Sexp {
+        Sexp::tagged("opaque", vec![Sexp::str(&gen_string(rng)), Sexp::str(&gen_string(rng))])
+    }
+    fn orig(&self) -> Orig {
+        Orig { disp: Some(self.0.clone()), dbg: Some(self.1.clone()), ..Orig::new() }
+    }
+}
+
+// ---- emit's own value types for the well-known keys
+
+impl Build for emit::Level {
+    fn build(s: &Sexp) -> Option<Self> {
+        let t = tagged(s, "level", 1)?[0].as_string()?;
+        [emit::Level::Debug, emit::Level::Info, emit::Level::Warn, emit::Level::Error].into_iter().find(|l| l.to_string() == t)
+    }
+    fn gen(rng: &mut Rng, _: usize) -> Sexp {
+        { let t: &str = *rng.pick(&["debug", "info", "warn", "error"]); Sexp::tagged("level", vec![Sexp::str(t)]) }
+    }
+    fn orig(&self) -> Orig {
+        Orig { disp: Some(self.to_string()), dbg: Some(format!("{:?}", self)), ..Orig::new() }
+    }
+}
+impl Build for emit::span::TraceId {
+    fn build(s: &Sexp) -> Option<Self> {
+        emit::span::TraceId::from_u128(tagged(s, "traceid", 1)?[0].as_u128()?)
+    }
+    fn gen(rng: &mut Rng, _: usize) -> Sexp {
+        let n = match rng.below(4) {
+            0 => 1,
+            1 => u128::MAX,
+            2 => rng.next() as u128,
+            _ => ((rng.next() as u128) << 64 | rng.next() as u128).max(1),
+        };
+        Sexp::tagged("traceid", vec![Sexp::num(n.max(1))])
+    }
+    fn orig(&self) -> Orig {
+        Orig { disp: Some(self.to_string()), dbg: Some(format!("{:?}", self)), sj: sj(self), vj: vj(self), ..Orig::new() }
+    }
+}
+impl Build for emit::span::SpanId {
+    fn build(s: &Sexp) -> Option<Self> {
+        emit::span::SpanId::from_u64(tagged(s, "spanid", 1)?[0].as_u64()?)
+    }
+    fn gen(rng: &mut Rng, _: usize) -> Sexp {
+        let n = match rng.below(3) {
+            0 => 1,
+            1 => u64::MAX,
+            _ => rng.next().max(1),
+        };
+        Sexp::tagged("spanid", vec![Sexp::num(n)])
+    }
+    fn orig(&self) -> Orig {
+        Orig { disp: Some(self.to_string()), dbg: Some(format!("{:?}", self)), sj: sj(self), vj: vj(self), ..Orig::new() }
+    }
+}
+
+/// `Option<Level>` / `Option<TraceId>` / `Option<SpanId>` under their well-known key (no serde/sval bound needed)
+struct WkOpt<T>(Option<T>);
+impl<T: Build> Build for WkOpt<T> {
+    fn build(s: &Sexp) -> Option<Self> {
+        let (t, a) = s.as_tagged()?;
+        match (t, a.len()) {
+            ("none", 1) if a[0].as_atom()? == "other" => Some(WkOpt(None)),
+            ("some", 1) => Some(WkOpt(Some(T::build(&a[0])?))),
+            _ => None,
+        }
+    }
+    fn gen(rng: &mut Rng, d: usize) -> Sexp {
+        if rng.chance(1, 3) {
+            Sexp::tagged("none", vec![Sexp::atom("other")])
+        } else {
+            Sexp::tagged("some", vec![T::gen(rng, d)])
+        }
+    }
+    fn orig(&self) -> Orig {
+        match &self.0 {
+            None => Orig { is_none: true, ..Orig::new() },
+            Some(v) => v.orig(),
+        }
+    }
+}
+
 // ------------------------------------------------------------------ capture sites (the REAL macros)
 
 macro_rules! props_for {
@@ -726,6 +1260,34 @@ macro_rules! opt_props_for {
     ($key:ident, error, $e:expr) => { emit::props! { #[emit::optional] #[emit::as_error] $key: $e } };
 }
 
+// the same attributes on `emit::emit!`; for the ordinary key the property is also interpolated into the template
+macro_rules! emit_for {
+    ($rt:expr, k, none, $e:expr) => { emit::emit!(rt: $rt, "c19 {k}", k: $e) };
+    ($rt:expr, k, display, $e:expr) => { emit::emit!(rt: $rt, "c19 {k}", #[emit::as_display] k: $e) };
+    ($rt:expr, k, display_i, $e:expr) => { emit::emit!(rt: $rt, "c19 {k}", #[emit::as_display(inspect: true)] k: $e) };
+    ($rt:expr, k, debug, $e:expr) => { emit::emit!(rt: $rt, "c19 {k}", #[emit::as_debug] k: $e) };
+    ($rt:expr, k, debug_i, $e:expr) => { emit::emit!(rt: $rt, "c19 {k}", #[emit::as_debug(inspect: true)] k: $e) };
+    ($rt:expr, k, sval, $e:expr) => { emit::emit!(rt: $rt, "c19 {k}", #[emit::as_sval] k: $e) };
+    ($rt:expr, k, sval_i, $e:expr) => { emit::emit!(rt: $rt, "c19 {k}", #[emit::as_sval(inspect: true)] k: $e) };
+    ($rt:expr, k, serde, $e:expr) => { emit::emit!(rt: $rt, "c19 {k}", #[emit::as_serde] k: $e) };
+    ($rt:expr, k, serde_i, $e:expr) => { emit::emit!(rt: $rt, "c19 {k}", #[emit::as_serde(inspect: true)] k: $e) };
+    ($rt:expr, k, value, $e:expr) => { emit::emit!(rt: $rt, "c19 {k}", #[emit::as_value] k: $e) };
+    ($rt:expr, k, value_i, $e:expr) => { emit::emit!(rt: $rt, "c19 {k}", #[emit::as_value(inspect: true)] k: $e) };
+    ($rt:expr, k, error, $e:expr) => { emit::emit!(rt: $rt, "c19 {k}", #[emit::as_error] k: $e) };
+    ($rt:expr, $key:ident, none, $e:expr) => { emit::emit!(rt: $rt, "c19", $key: $e) };
+    ($rt:expr, $key:ident, display, $e:expr) => { emit::emit!(rt: $rt, "c19", #[emit::as_display] $key: $e) };
+    ($rt:expr, $key:ident, display_i, $e:expr) => { emit::emit!(rt: $rt, "c19", #[emit::as_display(inspect: true)] $key: $e) };
+    ($rt:expr, $key:ident, debug, $e:expr) => { emit::emit!(rt: $rt, "c19", #[emit::as_debug] $key: $e) };
+    ($rt:expr, $key:ident, debug_i, $e:expr) => { emit::emit!(rt: $rt, "c19", #[emit::as_debug(inspect: true)] $key: $e) };
+    ($rt:expr, $key:ident, sval, $e:expr) => { emit::emit!(rt: $rt, "c19", #[emit::as_sval] $key: $e) };
+    ($rt:expr, $key:ident, sval_i, $e:expr) => { emit::emit!(rt: $rt, "c19", #[emit::as_sval(inspect: true)] $key: $e) };
+    ($rt:expr, $key:ident, serde, $e:expr) => { emit::emit!(rt: $rt, "c19", #[emit::as_serde] $key: $e) };
+    ($rt:expr, $key:ident, serde_i, $e:expr) => { emit::emit!(rt: $rt, "c19", #[emit::as_serde(inspect: true)] $key: $e) };
+    ($rt:expr, $key:ident, value, $e:expr) => { emit::emit!(rt: $rt, "c19", #[emit::as_value] $key: $e) };
+    ($rt:expr, $key:ident, value_i, $e:expr) => { emit::emit!(rt: $rt, "c19", #[emit::as_value(inspect: true)] $key: $e) };
+    ($rt:expr, $key:ident, error, $e:expr) => { emit::emit!(rt: $rt, "c19", #[emit::as_error] $key: $e) };
+}
+
 struct Entry {
     tag: &'static str,
     /// (key, attr) pairs that type-check for this type; each exists in the three OPT forms
@@ -750,17 +1312,30 @@ macro_rules! entry {
                         return match opt {
                             "plain" => {
                                 let p = props_for!($key, $attr, v);
-                                Some(finish(&p, stringify!($key), attr, opt, path, &orig))
+                                let emitted = if path == Path::Emit {
+                                    Some(with_rt(stringify!($key), |rt| {
+                                        emit_for!(rt, $key, $attr, v);
+                                    }))
+                                } else {
+                                    None
+                                };
+                                Some(finish(&p, stringify!($key), attr, opt, path, &orig, emitted))
                             }
                             "some" => {
                                 let o: Option<&$B> = Some(v);
+                                if path == Path::Emit {
+                                    return None;
+                                }
                                 let p = opt_props_for!($key, $attr, o);
-                                Some(finish(&p, stringify!($key), attr, opt, path, &orig))
+                                Some(finish(&p, stringify!($key), attr, opt, path, &orig, None))
                             }
                             "none" => {
                                 let o: Option<&$B> = None;
+                                if path == Path::Emit {
+                                    return None;
+                                }
                                 let p = opt_props_for!($key, $attr, o);
-                                Some(finish(&p, stringify!($key), attr, opt, path, &orig))
+                                Some(finish(&p, stringify!($key), attr, opt, path, &orig, None))
                             }
                             _ => None,
                         };
@@ -779,6 +1354,16 @@ fn entries() -> Vec<Entry> {
     macro_rules! int_entry {
         ($tag:literal, $T:ty) => {
             entry!($tag, $T, [(k none), (k display), (k display_i), (k debug), (k debug_i), (k sval), (k sval_i), (k serde), (k serde_i), (k value), (k value_i)])
+        };
+    }
+    macro_rules! st_entry {
+        ($tag:literal, $T:ty) => {
+            entry!($tag, $T, [(k debug), (k debug_i), (k sval), (k sval_i), (k serde), (k serde_i)])
+        };
+    }
+    macro_rules! opt_entry {
+        ($tag:literal, $T:ty) => {
+            entry!($tag, $T, [(k debug), (k debug_i), (k sval), (k sval_i), (k serde), (k serde_i), (k value), (k value_i)])
         };
     }
     vec![
@@ -801,6 +1386,64 @@ fn entries() -> Vec<Entry> {
         entry!("string", String, [(k none), (k display), (k display_i), (k debug), (k debug_i), (k sval), (k sval_i), (k serde), (k serde_i), (k value), (k value_i)]),
         entry!("str", BorrowedStr => |b| b.0.as_str() ; str, [(k none), (k display), (k display_i), (k debug), (k debug_i), (k sval), (k sval_i), (k serde), (k serde_i), (k value), (k value_i), (k error),
             (lvl none), (err none), (trace_id none), (span_id none), (span_parent none), (lvl debug), (err display)]),
+        // Option of a primitive: in value_bag's primitive table, and `ToValue`
+        opt_entry!("opt_i32", Option<i32>),
+        opt_entry!("opt_u64", Option<u64>),
+        opt_entry!("opt_i128", Option<i128>),
+        opt_entry!("opt_f64", Option<f64>),
+        opt_entry!("opt_bool", Option<bool>),
+        opt_entry!("opt_string", Option<String>),
+        st_entry!("opt_f32", Option<f32>),
+        st_entry!("opt_char", Option<char>),
+        // containers and derived structs / enums
+        st_entry!("unit", ()),
+        st_entry!("vec_i32", Vec<i32>),
+        st_entry!("vec_string", Vec<String>),
+        st_entry!("vec_f64", Vec<f64>),
+        st_entry!("vec_bool", Vec<bool>),
+        st_entry!("vec_opt_i64", Vec<Option<i64>>),
+        st_entry!("vec_vec_u8", Vec<Vec<u8>>),
+        st_entry!("map_string_i64", BTreeMap<String, i64>),
+        st_entry!("map_i32_string", BTreeMap<i32, String>),
+        st_entry!("map_u64_f64", BTreeMap<u64, f64>),
+        st_entry!("map_string_vec_bool", BTreeMap<String, Vec<bool>>),
+        st_entry!("tup_i32_string", (i32, String)),
+        st_entry!("tup_unit_tup", ((), (u8, f64))),
+        st_entry!("rec2_i64_string", Rec2<i64, String>),
+        st_entry!("rec2_optbool_vecf64", Rec2<Option<bool>, Vec<f64>>),
+        st_entry!("rec2_en_map", Rec2<En<u8, String>, BTreeMap<String, Rec2<i32, char>>>),
+        st_entry!("rec2_rec2_newt", Rec2<Rec2<i32, char>, Newt<UnitS>>),
+        st_entry!("newt_i32", Newt<i32>),
+        st_entry!("newt_string", Newt<String>),
+        st_entry!("newt_f64", Newt<f64>),
+        st_entry!("tup2_u8_f32", Tup2<u8, f32>),
+        st_entry!("units", UnitS),
+        st_entry!("en_i32_string", En<i32, String>),
+        st_entry!("en_vec_rec", En<Vec<i32>, Rec2<u8, String>>),
+        st_entry!("en_unit_opt", En<(), Option<String>>),
+        st_entry!("en_en", En<En<bool, u16>, Newt<i128>>),
+        st_entry!("opt_rec2", Option<Rec2<u32, String>>),
+        st_entry!("opt_vec_i32", Option<Vec<i32>>),
+        st_entry!("opt_opt_i32", Option<Option<i32>>),
+        st_entry!("vec_rec2", Vec<Rec2<i16, Option<String>>>),
+        st_entry!("vec_en", Vec<En<i64, f64>>),
+        st_entry!("vec_tup", Vec<(String, u128)>),
+        // errors, Display-only / Debug-only types
+        entry!("chainerr", ChainErr, [(k none), (k display), (k display_i), (k debug), (k debug_i), (k error), (err none), (err debug), (err display)]),
+        entry!("disponly", DispOnly, [(k none), (k display), (k display_i)]),
+        entry!("dbgonly", DbgOnly, [(k debug), (k debug_i)]),
+        entry!("dispdbg", DispDbg, [(k none), (k display), (k display_i), (k debug), (k debug_i)]),
+        // emit's own id / level types, with and without their well-known keys
+        entry!("level", emit::Level, [(k none), (k display), (k display_i), (k debug), (k debug_i), (k value), (k value_i), (lvl none), (lvl display), (lvl debug_i), (lvl value)]),
+        entry!("traceid", emit::span::TraceId, [(k none), (k display), (k display_i), (k debug), (k debug_i), (k value), (k value_i), (k sval), (k sval_i), (k serde), (k serde_i), (trace_id none), (trace_id debug), (trace_id serde_i)]),
+        entry!("spanid", emit::span::SpanId, [(k none), (k display), (k display_i), (k debug), (k debug_i), (k value), (k value_i), (k sval), (k sval_i), (k serde), (k serde_i), (span_id none), (span_parent none), (span_id display), (span_parent sval_i)]),
+        entry!("wk_opt_level", WkOpt<emit::Level> => |b| &b.0 ; Option<emit::Level>, [(lvl none)]),
+        entry!("wk_opt_traceid", WkOpt<emit::span::TraceId> => |b| &b.0 ; Option<emit::span::TraceId>, [(trace_id none)]),
+        entry!("wk_opt_spanid", WkOpt<emit::span::SpanId> => |b| &b.0 ; Option<emit::span::SpanId>, [(span_id none), (span_parent none)]),
+        entry!("wk_u64", u64, [(span_id none), (span_parent none)]),
+        entry!("wk_u128", u128, [(trace_id none)]),
+        entry!("wk_opt_u64", Option<u64>, [(span_id none), (span_parent none)]),
+        entry!("wk_opt_u128", Option<u128>, [(trace_id none)]),
     ]
 }
 
@@ -835,6 +1478,7 @@ fn check_prim(p: &Prim, o: &Obs) -> Result<(), String> {
         Prim::UInt(u) => o.u128 == Some(*u) && o.u64 == u64::try_from(*u).ok() && o.u8 == u8::try_from(*u).ok(),
         Prim::F64(bits) => o.f64 == Some(*bits),
         Prim::Str(s) => o.s.as_deref() == Some(s.as_str()) && o.disp == *s,
+        Prim::Char(c) => o.disp == c.to_string() && o.sj == sj(c),
         Prim::Null => o.null,
     };
     if ok {
@@ -846,13 +1490,13 @@ fn check_prim(p: &Prim, o: &Obs) -> Result<(), String> {
 
 /// The property evaluated on the real outputs alone (no model).
 fn oracle(key: &str, attr: &str, opt: &str, path: Path, orig: &Orig, direct: &Option<Obs>, got: &Option<Obs>) -> Result<(), String> {
-    if opt == "none" || orig.wk_none {
+    let hook = hook_of(key, attr);
+    if opt == "none" || (orig.is_none && matches!(hook, "level" | "trace_id" | "span_id")) {
         return if direct.is_none() && got.is_none() { Ok(()) } else { Err("none-contributes-a-property".into()) };
     }
     let d = direct.as_ref().ok_or("property-missing")?;
     let g = got.as_ref().ok_or("property-lost-on-path")?;
     let inspect = attr.ends_with("_i");
-    let hook = hook_of(key, attr);
     match hook {
         "default" | "value" | "level" | "trace_id" | "span_id" => {
             if orig.prim != Prim::No {
@@ -901,7 +1545,12 @@ fn oracle(key: &str, attr: &str, opt: &str, path: Path, orig: &Orig, direct: &Op
         _ => return Err("unknown-hook".into()),
     }
     // read-path invariance: numbers, booleans, strings and structured values survive unchanged
-    if path != Path::Direct {
+    // (the property does not promise it for error values — value_bag loses the chain behind `to_shared` — and the
+    // ambient context replaces a debug/sval/serde-captured TraceId/SpanId by the id itself)
+    let id_fast_path = matches!(d.tid, "trace" | "span")
+        && matches!(hook, "debug" | "sval" | "serde")
+        && matches!(path, Path::CtxtPush | Path::CtxtRoot | Path::CtxtNested | Path::CtxtThread | Path::EmitCtxt);
+    if path != Path::Direct && d.chain.is_none() && !id_fast_path {
         let structured = hook == "sval" || hook == "serde";
         let mut a = d.clone();
         let mut b = g.clone();
@@ -928,12 +1577,16 @@ fn oracle(key: &str, attr: &str, opt: &str, path: Path, orig: &Orig, direct: &Op
     Ok(())
 }
 
-fn finish<P: Props>(props: &P, key: &'static str, attr: &str, opt: &str, path: Path, orig: &Orig) -> String {
+fn finish<P: Props>(props: &P, key: &'static str, attr: &str, opt: &str, path: Path, orig: &Orig, emitted: Option<Option<Obs>>) -> String {
     let direct = observe(props, key);
-    let got = read(props, key, path);
+    let got = match emitted {
+        Some(o) => o,
+        None => read(props, key, path),
+    };
     let hook = hook_of(key, attr);
     let structured = hook == "sval" || hook == "serde";
-    let sh = Shown { pulls: !structured || orig.leaf, fmt: !structured };
+    let captured_error = direct.as_ref().map_or(false, |d| d.chain.is_some());
+    let sh = Shown { pulls: !structured || orig.leaf, fmt: !structured, dbg: !captured_error };
     let out = render(&got, &sh);
     match oracle(key, attr, opt, path, orig, &direct, &got) {
         Ok(()) => out,
@@ -966,17 +1619,32 @@ fn gen_c19(rng: &mut Rng, tier: Tier, n: usize) -> Vec<String> {
     while out.len() < n {
         let e = rng.pick(&table);
         let v = (e.gen)(rng, depth);
-        let (key, attr) = *rng.pick(e.sites);
+        let (key, mut attr) = *rng.pick(e.sites);
+        // known finding `sval-nested-seq-via-serde`: a non-empty sequence below the root of an sval-captured value is
+        // mangled by the sval→serde bridge; generated cases stay out of that region (the corpus holds reproducers)
+        if attr.starts_with("sval") && nested_seq(&v, true) {
+            attr = if attr == "sval" { "serde" } else { "serde_i" };
+        }
         let opt = match rng.below(8) {
             0 => "none",
             1 | 2 => "some",
             _ => "plain",
         };
         let path = rng.pick(PATHS).0;
+        let opt = if path == "emit" { "plain" } else { opt };
         out.push(format!("(c19 {} {} ({} {} {}) {})", e.tag, v, key, attr, opt, path));
     }
     out
 }
 
-#[allow(dead_code)]
-fn unused(_: BTreeMap<String, i32>) {}
+/// Is there a non-empty `(seq …)` strictly below the root? (mirrors `V.hasSeqBelow` of the model)
+fn nested_seq(v: &Sexp, root: bool) -> bool {
+    match v.as_tagged() {
+        Some(("seq", items)) => (!root && !items.is_empty()) || items.iter().any(|i| nested_seq(i, false)),
+        Some(("some", a)) | Some(("tuple", a)) => a.iter().any(|i| nested_seq(i, false)),
+        Some(("map", kvs)) => kvs.iter().any(|kv| kv.as_list().map_or(false, |l| l.len() == 2 && nested_seq(&l[1], false))),
+        Some(("rec", a)) | Some(("svar", a)) => a.iter().skip(1).any(|f| f.as_list().map_or(false, |l| l.len() == 2 && nested_seq(&l[1], false))),
+        Some(("tstruct", a)) | Some(("nvar", a)) | Some(("tvar", a)) => a.iter().skip(1).any(|i| nested_seq(i, false)),
+        _ => false,
+    }
+}
